@@ -153,3 +153,33 @@ fn c14_bytecode() {
     forget(dm);
 }
 
+
+// ---------------------------------------------------------------------------
+// C08 (thorough): a Hermes map as a section of an index map: the lookup resolves through
+// the section's inner map at the section-relative position.
+#[kani::proof]
+#[kani::unwind(5)]
+fn c08_lookup_hermes_section() {
+    let off: (u32, u32) = kani::any();
+    let tok = any_token();
+    kani::assume(!tok.is_range);
+    let h = mk_hermes(tok, Vec::new(), 1, false);
+    let mut secs = Vec::with_capacity(2);
+    secs.push(crate::types::SourceMapSection::new(off, None, Some(DecodedMap::Hermes(h))));
+    let idx = crate::types::SourceMapIndex::new(None, secs);
+    let line: u32 = kani::any();
+    let col: u32 = kani::any();
+    let got = idx.lookup_token(line, col).map(|t| t.get_raw_token());
+    let mut want = None;
+    if (line, col) >= off {
+        let rl = line - off.0;
+        let rc = if line == off.0 { col - off.1 } else { col };
+        if (tok.dst_line, tok.dst_col) <= (rl, rc) {
+            want = Some(tok);
+        }
+    }
+    assert!(got == want, "C08/lookup-hermes-section-relative-position");
+    kani::cover!(got.is_some() && line == off.0 && off.1 > 0, "first line of the section, shifted");
+    kani::cover!((line, col) >= off && got.is_none(), "inside the section before its token");
+    forget(idx);
+}
